@@ -132,10 +132,17 @@ def run_one(desc: List[R.Node], replace: Dict[str, str]) -> Tuple[str, str]:
     want = R.canon(R.spec_rewrite(desc, replace, has_constraint), sigs)
     g = to_fx(desc)
     gm = fx.GraphModule(torch.nn.Module(), g)
+    tmap0 = dict(U.torch_map)
     try:
         out = unit_scaling_backend({obj_of(k): obj_of(v) for k, v in replace.items()})(gm, [])
     except Exception as e:  # the property: runs without error
         return "raises", f"{type(e).__name__}: {e}"
+    finally:
+        changed = dict(U.torch_map) != tmap0
+        U.torch_map.clear()
+        U.torch_map.update(tmap0)  # keep later graphs of the sweep independent of this one
+    if changed:
+        return "deviates", "frame: unit_scaling.functional.torch_map was modified by the backend (entries of the user's replace map written into the built-in map)"
     got_desc = from_fx(out.graph)
     bad = R.lint(got_desc)
     if bad:
